@@ -488,6 +488,14 @@ func init() {
 		}
 	}
 	properties["C02"].Units = append(properties["C02"].Units, textKernels("C02.", nil)...)
+	// C19 owns the "never panics" side of the same kernels: on symbolic bytes of every length the
+	// wrappers' UnmarshalJSON returns nil or an error (a panic path is a violation of the unit's
+	// panic policy; the round-trip checks belong to C02)
+	for _, u := range textKernels("C19.", nil) {
+		if strings.Contains(u.Name, "parse-then-print") {
+			properties["C19"].Units = append(properties["C19"].Units, u)
+		}
+	}
 	properties["C13"].Units = append(properties["C13"].Units, Unit{Name: "json-files-vs-yaml-files", Harness: "pkg/generator:HarnessC13Files", Layer: "L3", Only: "C13.",
 		Desc:   "the same two schemas (a root with bounds, a two-element type list, a mixed enum with null, a $ref written without extension that --resolve-extension probing resolves, an allOf branch on the same file) as JSON files and as YAML files on the virtual file system, loaded through the default loaders (extension-based parser choice, FromYAMLFile -> goccy decode -> FixMapKeys -> json.Marshal -> the JSON parser): both spellings generate, and generate byte-identical code",
 		Bounds: "one concrete pair of schema sets; goccy/go-yaml itself is a library (its real decoder runs on the concrete bytes, nothing of it is interpreted); YAML-only features (anchors, tags, non-string keys) are outside",
